@@ -19,7 +19,7 @@ from ..common import (trace_bool, bool_switch_targets, enum_switch, ty_variants,
 from ..facts import op_place, op_const, rv_str
 from ..prov import Prov
 
-REGISTER = r"^signal_hook::(flag::register|flag::register_conditional|low_level::register|iterator::)"
+REGISTER = r"^signal_hook::(flag::register$|flag::register_usize$|low_level::register|iterator::)"
 SIGINT, SIGTERM = 2, 15
 VALID_SIGNALS = set(range(1, 32))
 DRIVERS = r"generate::(check_references|generate_code)$"
@@ -348,6 +348,8 @@ def run(ctx):
     rule_registration_order(ctx, facts, sites)
     rule_polling(ctx, facts)
     rule_interrupted_nonzero(ctx, facts)
+    from .c07 import rule_no_self_termination
+    rule_no_self_termination(ctx, facts, "C18-R6")
     try:
         from . import c07, c02
         c07.rule_complete_before_publish(ctx, facts, prefix="C18-R5/C07")
